@@ -42,6 +42,11 @@ def check(ctx):
     c07.r07_4(ctx, gc.build(ctx, "R07.4"))
     ctx.not_decided.append("byte equality of the re-read line under BGZF (pysam's seek/readline contract)")
     ctx.assumptions.append("tell()/seek()/readline() of text files and pysam BGZFile are consistent with each other")
+    # mechanisms this property rests on (see shared.py): a change there is reported here as well
+    from . import shared as _sh
+
+    _sh.graph_loader(ctx)
+    _sh.cli_layer(ctx, "gaftools.cli.sort")
 
 
 def handle_ops_on_path(p, handle):
